@@ -222,7 +222,65 @@ pub fn run(rep: &mut Report) {
         Some(v) => std::env::set_var("L4V_JOBS", v),
         None => std::env::remove_var("L4V_JOBS"),
     }
+    if rep.tier == "thorough" && std::env::var("L4V_NO_MIRI").is_err() {
+        crate::miri::run_miri_seeds(rep, "C17", 32);
+        rep.require(rep.counter("miri_seeds_run") >= 32 / 2, "fewer than half of the Miri seeds produced a result");
+    }
     rep.require(rep.counter("startup_rotations_observed") > 100, "fewer than 100 start-up rotations observed");
     rep.require(rep.counter("startup_without_rotation_observed") > 50, "too few start-ups below min_size observed");
     rep.require(rep.set_size("first_writer") >= 3, "concurrent first appends were always won by the same thread");
+}
+
+/// Tiny concurrent first-append run for Miri.
+pub fn miri_scenario(rep: &mut Report, rng: &mut Rng) {
+    let sc = Scratch::new("c17m");
+    let pre = *rng.pick(&[0usize, 40]);
+    let min = 1u64;
+    let c = pre_content(pre);
+    std::fs::write(sc.join(ACTIVE), &c).unwrap();
+    let mut e = Engine::new(sc.path.clone(), true, window3(), TrigSpec::OnStartUp(min), 1);
+    e.active = Some(c.clone());
+    if let Err((sig, what)) = e.open() {
+        rep.violation(&format!("C17:{}", sig), json!({"what": what, "under": "miri"}));
+        return;
+    }
+    let app: Arc<Box<dyn Append>> = Arc::new(e.app.take().unwrap());
+    let barrier = Arc::new(Barrier::new(3));
+    let acks: Arc<Mutex<Vec<Ack>>> = Arc::new(Mutex::new(vec![]));
+    std::thread::scope(|s| {
+        for t in 0..3u32 {
+            let (app, acks, barrier) = (app.clone(), acks.clone(), barrier.clone());
+            s.spawn(move || {
+                barrier.wait();
+                let mut mine = vec![];
+                for seq in 0..2u32 {
+                    mine.push(append_frame(&**app, t + 1, seq, 6, true));
+                }
+                acks.lock().unwrap().extend(mine);
+            });
+        }
+    });
+    drop(app);
+    let files = dir_files(&sc.path);
+    let archives: Vec<&String> = files.keys().filter(|k| *k != ACTIVE).collect();
+    let want_roll = pre as u64 >= min;
+    if want_roll && (archives != vec![&"app.0.log".to_owned()] || files["app.0.log"] != c) {
+        rep.violation("C17:concurrent:wrong-number-of-rotations", json!({"archives": format!("{:?}", archives), "under": "miri"}));
+        return;
+    }
+    if !want_roll && !archives.is_empty() {
+        rep.violation("C17:concurrent:unwanted-rotation", json!({"archives": format!("{:?}", archives), "under": "miri"}));
+        return;
+    }
+    let active = files.get(ACTIVE).cloned().unwrap_or_default();
+    let new_part: &[u8] = if want_roll { &active } else { &active[c.len().min(active.len())..] };
+    let acks = acks.lock().unwrap().clone();
+    match parse_stream(new_part).map_err(|e| ("S:stream-not-whole-frames".to_owned(), e))
+        .and_then(|p| check_stream(&p, &acks, &StreamOpts { allow_oldest_lost: false })) {
+        Ok(st) => {
+            rep.count("frames_checked", st.frames as i64);
+            rep.observe("thread_order_signatures", &st.order_signature.to_string());
+        }
+        Err((sig, what)) => rep.violation(&format!("C17:concurrent:{}", sig), json!({"what": what, "under": "miri"})),
+    }
 }
